@@ -79,9 +79,9 @@ def grep_forbidden():
     return hits
 
 
-def lean_build(modules, timeout=3400):
-    """Build the given modules (and the driver).  Returns (ok, log)."""
-    cmd = ["lake", "build", *modules, "driver"]
+def lean_build(modules, timeout=3400, exes=("driver",)):
+    """Build the given modules (and the driver executables).  Returns (ok, log)."""
+    cmd = ["lake", "build", *modules, *exes]
     p = subprocess.run(cmd, cwd=LEAN_DIR, capture_output=True, text=True, timeout=timeout)
     return p.returncode == 0, (p.stdout + p.stderr)
 
@@ -156,12 +156,12 @@ class Check:
         self.exhaustive = False
 
     # -- Lean
-    def prove(self, modules=None, audit=True, checker=False):
+    def prove(self, modules=None, audit=True, checker=False, exes=("driver",)):
         pid = self.pid
         modules = modules or [f"PyPred.Props.{pid}"]
-        self.checker_cmd = f"cd lean && lake build {' '.join(modules)} driver && lake env lean PyPred/Audit/{pid}.lean"
+        self.checker_cmd = f"cd lean && lake build {' '.join(modules)} {' '.join(exes)} && lake env lean PyPred/Audit/{pid}.lean"
         t = time.time()
-        ok, log = lean_build(modules)
+        ok, log = lean_build(modules, exes=exes)
         self.extra["lean_build_s"] = round(time.time() - t, 1)
         if not ok:
             errs = [l for l in log.split("\n") if "error" in l.lower()][:20]
